@@ -4,8 +4,8 @@ from fractions import Fraction
 import common
 from common import qlit
 
-PRE = ('From Coq Require Import QArith List Bool.\n'
-       'Require Import WV.model.C13Replaced WV.model.C13Spec WV.model.C13Judge.\n'
+PRE = ('From Coq Require Import QArith ZArith List Bool String.\n'
+       'Require Import WV.model.C13Replaced WV.model.C13Spec WV.model.C13Judge WV.model.C13Background WV.model.C13Stream.\n'
        'Import ListNotations.\nOpen Scope Q_scope.\n')
 
 F = Fraction
@@ -201,6 +201,66 @@ def coq_layout_case(c, out):
 LAYOUT_T = 'nat * bool * bool * lenpct * lenpct * Q * Q * (oq * oq * oq) * Q * Q * option (Q * Q * Q * Q)'
 
 
+
+# ------------------------------------------------------------------------------------------------ backgrounds
+
+REPS = ['repeat', 'no-repeat', 'space', 'round']
+
+
+def gen_bg(rng, n):
+    cases = []
+    def mk(i3, size, pw, ph, px, py, right, bottom, rx, ry):
+        return dict(iw=fs(i3[0]), ih=fs(i3[1]), ir=fs(i3[2]), size=size, pw=fs(pw), ph=fs(ph), paw=fs(F(pw) + 6),
+                    pah=fs(F(ph) + 8), ox='10', oy='20', px=px, py=py, right=right, bottom=bottom, rx=rx, ry=ry)
+    sizes = ['cover', 'contain', [None, None], [('px', '30'), None], [None, ('pct', '50')], [('pct', '25'), ('px', '10')],
+             [('px', '0'), None]]
+    for i3, size, rx, ry in itertools.product(SMALL_INTR[:8] + [SMALL_INTR[8]], sizes, REPS, REPS):
+        cases.append(mk(i3, size, 100, 90, ('pct', '50'), ('px', '5'), False, True, rx, ry))
+    rng.shuffle(cases)
+    cases = cases[:max(500, n // 2)]
+    while len(cases) < n:
+        i3 = gen_intr(rng)
+        def lp():
+            r = rng.random()
+            if r < 0.35:
+                return ('pct', rng.choice(['0', '50', '100', '25']))
+            if r < 0.7:
+                return ('pct', fs(rq(rng, 0, 100)))
+            return ('px', fs(rq(rng, -20, 80)))
+        def sz():
+            r = rng.random()
+            if r < 0.4:
+                return None
+            return ('px', fs(rq(rng, 0, 150))) if r < 0.7 else ('pct', fs(rq(rng, 0, 150)))
+        size = rng.choice(['cover', 'contain', None, None, None])
+        if size is None:
+            size = [sz(), sz()]
+        cases.append(mk(i3, size, rng.choice([F(0), rq(rng, 1, 300), rq(rng, 1, 300)]), rq(rng, 0, 300), lp(), lp(),
+                        rng.random() < 0.3, rng.random() < 0.3, rng.choice(REPS), rng.choice(REPS)))
+    return cases
+
+
+def olp(v):
+    return 'None' if v is None else '(Some %s)' % lp(v)
+
+
+def coq_bg_case(c, out):
+    if out == 'raise':
+        o = 'ORaise'
+    elif out == 'unused':
+        o = 'OUnused'
+    else:
+        if any(x.startswith('f:') for x in out['layer'] + (out['draw'] or [])):
+            return None
+        d = 'None' if out['draw'] is None else '(Some (%s))' % ', '.join(qlit(F(x)) for x in out['draw'])
+        o = '(OLayer (%s) %s)' % (', '.join(qlit(F(x)) for x in out['layer']), d)
+    size = {'cover': 'BCover', 'contain': 'BContain'}.get(c['size']) if isinstance(c['size'], str) else \
+        '(BSize %s %s)' % (olp(c['size'][0]), olp(c['size'][1]))
+    return '((%s, %s, %s), %s, (%s, %s), (%s, %s), (%s, %s), (%d%%nat, %d%%nat), (%s, %s), %s)' % (
+        oq(c['iw']), oq(c['ih']), oq(c['ir']), size, qlit(F(c['pw'])), qlit(F(c['ph'])), blit(c['right']), blit(c['bottom']),
+        lp(c['px']), lp(c['py']), REPS.index(c['rx']), REPS.index(c['ry']), qlit(F(c['paw'])), qlit(F(c['pah'])), o)
+
+
 # ------------------------------------------------------------------------------------------------ streams
 
 def has_float(out):
@@ -277,8 +337,21 @@ def check(run):
     direct_stream(run, 'layout-direct', 'rb_layout', gen_layout(rng, 1500 * k), coq_layout_case, LAYOUT_T, 'layout_judge',
                   lambda c, o: (c['fit'], nonepat(c), c['right'], c['bottom'], c['px'][0], c['py'][0], o == 'raise', c['bw'], c['bh']),
                   'object-fit / object-position (contain inside, cover covers, scale-down, alignment, inside content box)')
+    bg_stream(run, rng, k)
     run.stream_info('layout-direct', rule='replacedbox_layout on stub boxes: 12 intrinsic triples x 5 object-fit x origins x '
                     'px/% positions exhaustively + random; distinct = (fit, None pattern, origins, units, raises, box size)')
+
+
+def bg_stream(run, rng, k):
+    def sk(c, o):
+        size = c['size'] if isinstance(c['size'], str) else tuple(None if v is None else v[0] for v in c['size'])
+        return (nonepat(c), size, c['rx'], c['ry'], o if isinstance(o, str) else 'layer', c['px'][0], c['py'][0], c['pw'], c['ph'])
+    res = direct_stream(run, 'background-direct', 'bg_layer', gen_bg(rng, 1500 * k), coq_bg_case, 'bg_case', 'bg_judge', sk,
+                        'background-size/position/repeat (contain, cover, round fills, space distributes, alignment)')
+    run.stream_info('background-direct', rule='layout_background_layer + draw_background_image on stub boxes/streams: 9 intrinsic '
+                    'triples x 7 sizes x 16 repeat pairs exhaustively (sampled) + random sizes/positions/areas; distinct = '
+                    '(None pattern, size kind, repeats, outcome, units, area)',
+                    raises=sum(1 for c, o, m in res if o == 'raise'), unused=sum(1 for c, o, m in res if o == 'unused'))
 
 
 def replay(data):
